@@ -12,7 +12,6 @@ static inline void qstr_append_sb(qstr *s, const QSB *x)
   *s = __CPROVER_uninterpreted_str_appn(*s, x->n, x->a[0], x->a[1], x->a[2], x->a[3], x->a[4], x->a[5], x->a[6], x->a[7], x->a[8], x->a[9]);
 }
 #define NFIELD 8
-#define NMAP 24
 bool identityLessThan(ident i1, ident i2);
 static inline int qlst_size(const QLst *l) { return l->n; }
 static inline int qlst_at(const QLst *l, int i)
@@ -50,19 +49,23 @@ static inline int qlst_removeDuplicates(QLst *l)
   r.n = m; *l = r;
   return removed;
 }
+/* join: one free constructor of the separator and the (at most BL) elements; "" for the empty list, the element for a one-element list */
+qstr __CPROVER_uninterpreted_str_join4(qstr sep, int n, qstr e0, qstr e1, qstr e2, qstr e3);
+static inline bool qlst_isEmpty(const QLst *l) { return l->n == 0; }
+static inline void qlst_append(QLst *l, int x)
+{
+  MODEL_LIMIT(l->n >= 0 && l->n < BL, "bounded stand-in: list longer than BL");
+  l->e[l->n] = x; l->n = l->n + 1;
+}
 static inline qstr qlst_join(const QLst *l, quint16 sep)
 {
-  qstr s = 0, sp = qchar_str(sep);
-  for (int i = 0; i < BL; i++) {
-    if (i >= l->n) break;
-    if (i > 0) s = qs_app(s, sp);
-    s = qs_app(s, l->e[i]);
-  }
-  return s;
+  if (l->n <= 0) return 0;
+  if (l->n == 1) return l->e[0];
+  return __CPROVER_uninterpreted_str_join4(qchar_str(sep), l->n, l->e[0], l->e[1], l->e[2], l->e[3]);
 }
 /* fields, their values (QVariant = the field it belongs to) and the form */
 enum { VK_INVALID = 0, VK_STRING = 1, VK_STRINGLIST = 2, VK_BOOL = 3 };
-typedef struct BField { qstr key; int kind; qstr s; bool b; QLst list; } BField;
+typedef struct BField { qstr key; int type; int kind; qstr s; bool b; QLst list; } BField;
 BField gb_field[NFIELD];
 typedef struct BForm { bool isnull; QLst fields; } BForm;
 BForm gb_form[2];
@@ -71,6 +74,8 @@ static inline bool qform_isNull(qform f) { return gb_form[f & 1].isnull; }
 static inline void qform_fields(QLst *r, qform f) { *r = gb_form[f & 1].fields; }
 static inline qstr qfield_key(qfield f) { return FLD(f).key; }
 static inline qvar qfield_value(qfield f) { return f; }
+static inline int qfield_type(qfield f) { return FLD(f).type; }
+static inline bool qvar_toBool(qvar v) { return FLD(v).kind == VK_BOOL && FLD(v).b; }
 static inline bool qvar_canConvert_QStringList(qvar v) { return FLD(v).kind == VK_STRING || FLD(v).kind == VK_STRINGLIST; }
 static inline void qvar_toStringList(QLst *r, qvar v)
 {
@@ -86,43 +91,49 @@ static inline qstr qvar_toString(qvar v)
   if (FLD(v).kind == VK_STRINGLIST && FLD(v).list.n == 1) return FLD(v).list.e[0];
   return 0;
 }
-/* QMap<QString, Field>: association list in ascending key order; every update makes a new map value */
-typedef struct BMap { int n; qstr k[BL + 1]; qfield v[BL + 1]; } BMap;
-BMap gb_map[NMAP]; int gb_map_next;     /* value 0 is the empty map */
-static inline int map_new(void) { MODEL_LIMIT(gb_map_next >= 1 && gb_map_next < NMAP, "bounded stand-in: map pool exhausted"); return gb_map_next++; }
+/* QMap<QString, Field>: at most BL entries in ascending key order, packed into the map value itself:
+   bits 0..2 the number of entries, entry i in bits 3+6i .. 8+6i = (key: 3 bits, field: 3 bits).  Keys are string values < 8
+   (NSTR), fields are indices < NFIELD = 8; the empty map is 0. */
+#define M_N(m) ((unsigned)(m) & 7u)
+#define M_KEY(m, i) ((qstr)(((unsigned)(m) >> (3 + 6 * (i))) & 7u))
+#define M_FLD(m, i) ((qfield)(((unsigned)(m) >> (6 + 6 * (i))) & 7u))
+#define M_ENTRY(k, f, i) ((((unsigned)(k) & 7u) | (((unsigned)(f) & 7u) << 3)) << (3 + 6 * (i)))
+static inline qmap map_pack(int n, const qstr *k, const qfield *v)
+{
+  unsigned m = (unsigned)n & 7u;
+  for (int i = 0; i < BL; i++) if (i < n) m |= M_ENTRY(k[i], v[i], i);
+  return (qmap)m;
+}
 static inline void qmap_insert(qmap *m, qstr k, qfield f)
 {
-  const BMap *o = &gb_map[*m]; int id = map_new(); BMap *r = &gb_map[id];
-  MODEL_LIMIT(o->n >= 0 && o->n <= BL, "bounded stand-in: map larger than BL+1");
-  int j = 0; bool placed = false;
-  for (int i = 0; i < BL + 1; i++) { r->k[i] = 0; r->v[i] = 0; }
-  for (int i = 0; i < BL + 1; i++) {
-    if (i >= o->n) break;
-    if (!placed && o->k[i] == k) { r->k[j] = k; r->v[j] = f; j++; placed = true; continue; }
-    if (!placed && STR_LT(k, o->k[i])) { r->k[j] = k; r->v[j] = f; j++; placed = true; }
-    r->k[j] = o->k[i]; r->v[j] = o->v[i]; j++;
+  MODEL_LIMIT(k >= 0 && k < 8 && f >= 0 && f < 8, "bounded stand-in: key or field outside the packed range");
+  qstr ks[BL + 1] = { 0 }; qfield vs[BL + 1] = { 0 }; int n = (int)M_N(*m), j = 0; bool placed = false;
+  for (int i = 0; i < BL; i++) {
+    if (i >= n) break;
+    qstr ki = M_KEY(*m, i); qfield vi = M_FLD(*m, i);
+    if (!placed && ki == k) { ks[j] = k; vs[j] = f; j++; placed = true; continue; }
+    if (!placed && STR_LT(k, ki)) { ks[j] = k; vs[j] = f; j++; placed = true; }
+    ks[j] = ki; vs[j] = vi; j++;
   }
-  if (!placed) { r->k[j] = k; r->v[j] = f; j++; }
-  r->n = j;
-  *m = id;
+  if (!placed) { ks[j] = k; vs[j] = f; j++; }
+  MODEL_LIMIT(j <= BL, "bounded stand-in: more than BL map entries");
+  *m = map_pack(j, ks, vs);
 }
-static inline bool qmap_contains(qmap m, qstr k) { for (int i = 0; i < BL + 1; i++) if (i < gb_map[m].n && gb_map[m].k[i] == k) return true; return false; }
-static inline qfield qmap_value(qmap m, qstr k) { for (int i = 0; i < BL + 1; i++) if (i < gb_map[m].n && gb_map[m].k[i] == k) return gb_map[m].v[i]; return 0; }
+static inline bool qmap_contains(qmap m, qstr k) { for (int i = 0; i < BL; i++) if (i < (int)M_N(m) && M_KEY(m, i) == k) return true; return false; }
+static inline qfield qmap_value(qmap m, qstr k) { for (int i = 0; i < BL; i++) if (i < (int)M_N(m) && M_KEY(m, i) == k) return M_FLD(m, i); return 0; }
 static inline qfield qmap_take(qmap *m, qstr k)
 {
-  const BMap *o = &gb_map[*m]; qfield f = qmap_value(*m, k); int id = map_new(); BMap *r = &gb_map[id];
-  int j = 0;
-  for (int i = 0; i < BL + 1; i++) { r->k[i] = 0; r->v[i] = 0; }
-  for (int i = 0; i < BL + 1; i++) { if (i >= o->n) break; if (o->k[i] == k) continue; r->k[j] = o->k[i]; r->v[j] = o->v[i]; j++; }
-  r->n = j;
-  *m = id;
+  qfield f = qmap_value(*m, k);
+  qstr ks[BL]; qfield vs[BL]; int n = (int)M_N(*m), j = 0;
+  for (int i = 0; i < BL; i++) { ks[i] = 0; vs[i] = 0; }
+  for (int i = 0; i < BL; i++) { if (i >= n) break; if (M_KEY(*m, i) == k) continue; ks[j] = M_KEY(*m, i); vs[j] = M_FLD(*m, i); j++; }
+  *m = map_pack(j, ks, vs);
   return f;
 }
 static inline void qmap_keys(QLst *r, qmap m)
 {
-  MODEL_LIMIT(gb_map[m].n <= BL, "bounded stand-in: more than BL keys");
-  for (int i = 0; i < BL; i++) r->e[i] = i < gb_map[m].n ? gb_map[m].k[i] : 0;
-  r->n = gb_map[m].n;
+  for (int i = 0; i < BL; i++) r->e[i] = i < (int)M_N(m) ? M_KEY(m, i) : 0;
+  r->n = (int)M_N(m);
 }
 /* the specification's ghost hooks are not part of this run */
 typedef struct InfoSet { int unused; } InfoSet;
